@@ -452,7 +452,11 @@ func runConcurrentFailuresOnce(t *testing.T, n int, lat time.Duration) (line str
 		synctest.Wait()
 		time.Sleep(time.Second + 1)
 		for k := 0; k < n; k++ {
-			if !v.conn.deliver(vfRead{m: advMessage(advEvent{kind: 0, host: 1 + k%4}), hop: 255, host: vfHosts[1+k%4].WithZone("vf0")}) {
+			h := vfHosts[1+k%4]
+			if n > 4 {
+				h = manyHost(100 + k) // a crowd of distinct solicitors (a switch coming back)
+			}
+			if !v.conn.deliver(vfRead{m: advMessage(advEvent{kind: 0, host: 1 + k%4}), hop: 255, host: h.WithZone("vf0")}) {
 				break
 			}
 		}
@@ -491,5 +495,9 @@ func verifConcurrentFailures(t *testing.T, out *vfh.Out) {
 	for _, n := range []int{1, 2, 3, 4} {
 		runConcurrentFailures(t, out, n, 700*time.Millisecond)
 		runConcurrentFailures(t, out, n, 2*time.Second)
+	}
+	// a crowd: more answers in flight together than any bound the scheduler may keep
+	for _, n := range []int{17, 64, 65, 130} {
+		runConcurrentFailures(t, out, n, 700*time.Millisecond)
 	}
 }
